@@ -7,9 +7,9 @@
 package c07
 
 import (
-	"regexp"
 	"encoding/json"
 	"fmt"
+	"regexp"
 	"strings"
 	"testing"
 
